@@ -35,6 +35,7 @@ ND = "src/scinumtools/dip/nodes/"
 def r1_parent_stack(ctx):
     from . import C17 as _C17
     _C17.deep_copy_clause(ctx, 'src/scinumtools/dip/environment.py', 'Environment.copy', 'each parse starts from its own parent stack and node list: the working environment is a deep copy (shared with C17.R2)')
+    _spawned_nodes_stand_where_the_parent_stood(ctx)
     fn = ctx.fn(HIE, "HierarchyList.register")
     loops = [n for n in ast.walk(fn) if isinstance(n, (ast.While, ast.If)) and "self.parents[-1].indent" in norm(n.test)]
     if len(loops) != 1:
@@ -446,6 +447,39 @@ def _text_cut_as_written(ctx):
             else:
                 ctx.holds(DIP, q, what, detail=norm(c)[:80])
     ctx.floor("text cuts", n, 2, file=DIP)
+
+
+def _spawned_nodes_stand_where_the_parent_stood(ctx):
+    """A table or an import is not registered in the hierarchy itself: the nodes its parse() hands back (columns, imported
+    copies) take its place, so they stand at *its* indentation - one level deeper and HierarchyList.register keeps a
+    preceding sibling on the parent stack (`run / steps / output table` gives run.steps.output.time).  Every function
+    of the node classes that writes the indent of another node is looked at: the written value is the spawning
+    node's own indent; an offset or another node's indent is the violation."""
+    what = "nodes spawned by a table / an import stand at the indentation of the line that spawned them"
+    n = 0
+    for rel in ctx.repo.all_py("src/scinumtools/dip/nodes"):
+        try:
+            mod = ctx.repo.module(rel)
+        except Exception:
+            continue
+        for cls in [c for c in mod.tree.body if isinstance(c, ast.ClassDef)]:
+            for mname, fn in methods(cls).items():
+                for a in walk_no_nested(fn):
+                    if not isinstance(a, ast.Assign):
+                        continue
+                    for t in a.targets:
+                        if isinstance(t, ast.Attribute) and t.attr == "indent" and not (isinstance(t.value, ast.Name) and t.value.id == "self"):
+                            n += 1
+                            v = norm(a.value)
+                            if v == "self.indent":
+                                ctx.holds(rel, f"{cls.name}.{mname}", what, detail=norm(a))
+                            elif isinstance(a.value, ast.BinOp) and "self.indent" in v and any(isinstance(x, ast.Constant) and isinstance(x.value, (int, float)) and x.value != 0 for x in ast.walk(a.value)):
+                                ctx.violated(rel, f"{cls.name}.{mname}", what, detail=norm(a), expected=f"{norm(t)} = self.indent")
+                            elif isinstance(a.value, ast.Constant):
+                                ctx.violated(rel, f"{cls.name}.{mname}", what, detail=norm(a), expected=f"{norm(t)} = self.indent")
+                            else:
+                                ctx.unrecognised(rel, f"{cls.name}.{mname}", what, f"written value {v[:80]}")
+    ctx.floor("indent writers of spawned nodes", n, 2)
 
 
 def _blank_line_cells(ctx):
